@@ -352,6 +352,32 @@ impl Property for C19 {
                     }
                 }
             });
+            // the Geometry enum as receiver of try_map_coords, a change of scalar type (f64 -> f32), arrays and slices as CoordsIter
+            {
+                let ok: Result<Geometry<f64>, ()> = g.try_map_coords(|c| Ok(f(c)));
+                o.expect(ok.as_ref().ok() == Some(&want_mapped), &format!("try_map_coords:Geometry[{tn}]|ok-wrong"), || format!("got {:?}; {}", ok, ctx()));
+                let narrowed: Geometry<f32> = g.map_coords(|c| Coord { x: c.x as f32, y: c.y as f32 });
+                let got32: Vec<Coord<f32>> = narrowed.coords_iter().collect();
+                // (a Rect is mapped through its two corners; its traversal is then re-derived, which commutes with a monotone cast)
+                let want32: Vec<Coord<f32>> = want.iter().map(|c| Coord { x: c.x as f32, y: c.y as f32 }).collect();
+                // (a Triangle is rebuilt with Triangle::new, which may re-order a clockwise one: same coordinates, as a multiset)
+                fn has_tri(g: &G) -> bool { match g { G::Triangle(..) => true, G::Coll(v) => v.iter().any(has_tri), _ => false } }
+                let (mut got32, mut want32) = (got32, want32);
+                if has_tri(&c.g) {
+                    let k = |c: &Coord<f32>| (c.x.to_bits(), c.y.to_bits());
+                    got32.sort_by_key(k);
+                    want32.sort_by_key(k);
+                }
+                o.expect(got32 == want32, &format!("map_coords:Geometry[{tn}]|f64->f32"), || format!("got {:?} want {:?}; {}", got32, want32, ctx()));
+                let slice: &[Coord<f64>] = &want;
+                let via_slice: Vec<Coord<f64>> = slice.coords_iter().collect();
+                o.expect(via_slice == want && slice.coords_count() == want.len() && slice.exterior_coords_iter().count() == want.len(), "coords_iter:&[Coord]|wrong", || ctx());
+                if want.len() >= 3 {
+                    let arr: [Coord<f64>; 3] = [want[0], want[1], want[2]];
+                    let via_arr: Vec<Coord<f64>> = arr.coords_iter().collect();
+                    o.expect(via_arr == want[..3] && arr.coords_count() == 3, "coords_iter:[Coord;3]|wrong", || ctx());
+                }
+            }
             // try_map_coords_in_place cannot be instantiated for the recursive types (Geometry, GeometryCollection)
             with_concrete_only!(&g, [Point, Line, LineString, Polygon, MultiPoint, MultiLineString, MultiPolygon, Rect, Triangle], x => {
                 let mut y = x.clone();
